@@ -90,6 +90,17 @@ func (m *MonSwaps) PostTx(ctx sdk.Context, t *ExecTx) {
 	k := m.sim.N0.App.AmmKeeper
 	ins := k.GetAllSwapExactAmountInRequests(ctx)
 	outs := k.GetAllSwapExactAmountOutRequests(ctx)
+	// The queued request is what the chain derived from the user's message; for MsgSwapByDenom the
+	// chain builds it itself, so the recipient the USER stated (not the one the chain copied, or
+	// failed to copy, into the queue) is the reference.
+	stated := ""
+	if ms := flattenMsgs(t.Spec.Msgs); len(ms) == 1 {
+		if x, ok := ms[0].(*ammtypes.MsgSwapByDenom); ok {
+			if _, err := sdk.AccAddressFromBech32(x.Recipient); err == nil {
+				stated = x.Recipient
+			}
+		}
+	}
 	// the queue only grows during the transaction phase; identical messages are
 	// distinguished by multiplicity
 	count := map[string]int{}
@@ -103,6 +114,9 @@ func (m *MonSwaps) PostTx(ctx sdk.Context, t *ExecTx) {
 			if _, err := sdk.AccAddressFromBech32(rc); err != nil {
 				rc = msg.Sender
 			}
+			if stated != "" {
+				rc = stated
+			}
 			m.reqs = append(m.reqs, &swapReq{tx: t.Index, exactIn: true, sender: msg.Sender, recipient: rc, routesIn: msg.Routes, tokenIn: msg.TokenIn, minOut: msg.TokenOutMinAmount, key: key})
 		}
 	}
@@ -115,6 +129,9 @@ func (m *MonSwaps) PostTx(ctx sdk.Context, t *ExecTx) {
 			rc := msg.Recipient
 			if _, err := sdk.AccAddressFromBech32(rc); err != nil {
 				rc = msg.Sender
+			}
+			if stated != "" {
+				rc = stated
 			}
 			m.reqs = append(m.reqs, &swapReq{tx: t.Index, exactIn: false, sender: msg.Sender, recipient: rc, routesOut: msg.Routes, tokenOut: msg.TokenOut, maxIn: msg.TokenInMaxAmount, key: key})
 		}
